@@ -364,7 +364,7 @@ def main():
         allok &= bool(found)
         RESULTS.append({"experiment": "MiPurge variant %s" % variant, "config": cfgname, "expected": what or "no error", "as_expected": bool(found)})
 
-    for variant, what in (("no_relook", "Invariant Quiescent is violated"), ("mark_last", "Invariant Quiescent is violated"), ("fixed", None)):
+    for variant, what in (("no_relook", "Invariant Quiescent is violated"), ("mark_last", "Invariant Quiescent is violated"), ("skip_in_use", "Invariant Quiescent is violated"), ("fixed", None)):
         src = open(os.path.join(ROOT, "spec", "MiPurgeConc_mc.cfg")).read().replace('Variant = "fixed"', 'Variant = "%s"' % variant)
         tmpcfg = os.path.join(ROOT, "spec", "_selftest_conc_%s.cfg" % variant)
         open(tmpcfg, "w").write(src)
